@@ -47,7 +47,7 @@ def main():
                     rc = rc or 1; bad += [l[:200] for l in (b.stdout + b.stderr).splitlines() if "VIOLATION" in l or "disagrees" in l][:3]
             return p, rc, bad
         alarms = 0
-        with cf.ThreadPoolExecutor(max_workers=4) as ex:
+        with cf.ThreadPoolExecutor(max_workers=8) as ex:
             for p, rc, bad in ex.map(one, props):
                 if rc != 0:
                     alarms += 1
